@@ -337,10 +337,21 @@ def p3(ctx: Ctx):
     py = pyfacts(ctx)
     m = py.mod(CLI_REL)
     ctx.need("start" in m.functions, "start", "decb_to_b09.start() not found")
-    fn = m.functions["start"]
+    from .normalise import normalise_module
+
+    # `_build_parser()` / `_procname_for()` style helpers are inlined into start() first
+    nt = normalise_module(m.tree)
+    fn = next(f for f in nt.body if isinstance(f, ast.FunctionDef) and f.name == "start")
+    # the parser may be built by helpers start() calls (transitively): their add_argument calls count
+    mod_fns = {f.name: f for f in nt.body if isinstance(f, ast.FunctionDef)}
+    reach = [fn]
+    for f_ in reach:
+        for c in ast.walk(f_):
+            if isinstance(c, ast.Call) and isinstance(c.func, ast.Name) and c.func.id in mod_fns and mod_fns[c.func.id] not in reach and c.func.id not in ("main",):
+                reach.append(mod_fns[c.func.id])
     args_by_flag: Dict[str, dict] = {}
     positionals: List[dict] = []
-    for n in walk_no_nested(fn):
+    for n in [x for f_ in reach for x in walk_no_nested(f_)]:
         if isinstance(n, ast.Call) and call_name(n) == "add_argument":
             flags = [a.value for a in n.args if isinstance(a, ast.Constant) and isinstance(a.value, str)]
             kw = {k.arg: k.value for k in n.keywords if k.arg}
@@ -367,6 +378,12 @@ def p3(ctx: Ctx):
             return d, ("neg" if pol == "pos" else "pos")
         if isinstance(e, ast.Attribute) and isinstance(e.value, ast.Name) and e.value.id == ns:
             return e.attr, "pos"
+        if isinstance(e, ast.Name):
+            from .pyast import resolve_alias as _ra
+
+            r_ = _ra(fn, e)
+            if r_ is not e:
+                return source_of(r_)
         return None, "?"
 
     for flag, (kwname, pol, typ) in CLI_TABLE.items():
@@ -423,18 +440,49 @@ def p3(ctx: Ctx):
         t = rec["kw"].get("type")
         okm = isinstance(t, ast.Call) and call_name(t) == "FileType" and t.args and isinstance(t.args[0], ast.Constant) and t.args[0].value == mode
         ctx.ob(f"{rec['dest']}:FileType({mode})", okm, "" if okm else f"positional `{rec['dest']}` is not opened with mode {mode!r}", file=CLI_REL, line=rec["line"])
-    # procname = splitext(basename(args.<input>.name))[0]
+    # procname = stem of the input file's name, in whatever way it is spelt (helpers, locals, [0] or tuple unpacking)
+    from .pyast import resolve_alias as _ra
+
+    def path_term(e: ast.AST, f_: ast.FunctionDef, binding: Dict[str, ast.AST], depth: int = 0):
+        """Symbolic value of a path expression: ('stem', x) | ('ext', x) | ('base', x) | ('name', dest) | None."""
+        if depth > 8 or e is None:
+            return None
+        if isinstance(e, ast.Name):
+            if e.id in binding:
+                return path_term(binding[e.id], fn, {}, depth + 1)
+            # first / second element of a tuple-unpacked splitext()
+            for a in ast.walk(f_):
+                if isinstance(a, ast.Assign) and isinstance(a.targets[0], ast.Tuple) and len(a.targets[0].elts) == 2 and all(isinstance(x, ast.Name) for x in a.targets[0].elts):
+                    names2 = [x.id for x in a.targets[0].elts]
+                    if e.id in names2 and isinstance(a.value, ast.Call) and call_name(a.value) == "splitext" and a.value.args:
+                        inner = path_term(a.value.args[0], f_, binding, depth + 1)
+                        return ("stem" if names2.index(e.id) == 0 else "ext", inner) if inner is not None else None
+            r_ = _ra(f_, e)
+            return path_term(r_, f_, binding, depth + 1) if r_ is not e else None
+        if isinstance(e, ast.Subscript) and isinstance(e.slice, ast.Constant) and isinstance(e.value, ast.Call) and call_name(e.value) == "splitext" and e.value.args:
+            inner = path_term(e.value.args[0], f_, binding, depth + 1)
+            return (("stem", "ext")[e.slice.value], inner) if inner is not None and e.slice.value in (0, 1) else None
+        if isinstance(e, ast.Call) and call_name(e) == "basename" and e.args:
+            inner = path_term(e.args[0], f_, binding, depth + 1)
+            return ("base", inner) if inner is not None else None
+        if isinstance(e, ast.Attribute) and e.attr == "name":
+            d_, _pol = source_of(e.value) if f_ is fn else (None, "?")
+            if d_ is None and isinstance(e.value, ast.Name) and e.value.id in binding:
+                d_, _pol = source_of(binding[e.value.id])
+            return ("name", d_) if d_ is not None else None
+        if isinstance(e, ast.Call) and isinstance(e.func, ast.Name) and e.func.id in mod_fns and not e.keywords:
+            h = mod_fns[e.func.id]
+            ps = [a.arg for a in h.args.args]
+            if len(ps) == len(e.args):
+                rets = [r for r in ast.walk(h) if isinstance(r, ast.Return) and r.value is not None]
+                if len(rets) == 1:
+                    return path_term(rets[0].value, h, dict(zip(ps, e.args)), depth + 1)
+        return None
+
     pn = kwmap.get("procname")
-    src = None
-    if isinstance(pn, ast.Name):
-        for n in walk_no_nested(fn):
-            if isinstance(n, ast.Assign) and isinstance(n.targets[0], ast.Name) and n.targets[0].id == pn.id:
-                src = n.value
-    elif pn is not None:
-        src = pn
-    txt = unparse(src) if src is not None else ""
-    okp = re.fullmatch(rf"os\.path\.splitext\(os\.path\.basename\({ns}\.{re.escape(inp['dest'])}\.name\)\)\[0\]", txt.replace(" ", "")) is not None
-    ctx.ob("procname=stem(input)", okp, "" if okp else f"procname is `{txt}`, not the stem of the input file name", file=CLI_REL, line=call.lineno)
+    term = path_term(pn, fn, {}) if pn is not None else None
+    want_term = ("stem", ("base", ("name", inp["dest"])))
+    ctx.idiom("procname=stem(input)", term is not None, term == want_term, "" if term == want_term else f"procname is `{unparse(pn) if pn is not None else None}` = {term}, not the stem of the input file's base name", file=CLI_REL, line=call.lineno)
     # convert_file: passes every option through under its own name; output has \n -> \r before write
     P = pipeline(ctx)
     cf = P.convert_file
@@ -601,9 +649,12 @@ def _nonempty_test(cond: str) -> bool:
 @rule("P6", "HANDLER-CONSTANTS: dispatcher label, ON ERROR target and the line-number bound agree; break goes to the BRK target", ["C06"], floor=5)
 def p6(ctx: Ctx):
     py = pyfacts(ctx)
+    from .normalise import normalise_module
+
     m = py.mod("coco/b09/error_handler.py")
     ctx.need("generate" in m.functions, "error_handler.generate", "not found")
-    g = m.functions["generate"]
+    # helper functions that build one line each are inlined first
+    g = next(f for f in normalise_module(m.tree).body if isinstance(f, ast.FunctionDef) and f.name == "generate")
     labels = []
     for n in ast.walk(g):
         if isinstance(n, ast.Call) and call_name(n) == "BasicLine" and n.args and isinstance(n.args[0], ast.Constant) and isinstance(n.args[0].value, int):
